@@ -349,11 +349,12 @@ func (it *Interp) handleTopPanic(e *GoPanic) {
 		it.R.addDischarged("panic on infeasible path: " + e.Msg)
 		return
 	}
-	m := map[string]string{}
-	if res == "sat" {
-		m = it.model()
+	if res != "sat" {
+		it.R.addInconclusive("panic path with undecided feasibility: " + e.Msg + " at " + e.Where)
+		return
 	}
-	it.R.addViolation(&Violation{Harness: it.R.Harness, Msg: "panic: " + e.Msg, Kind: "panic", Model: m, Where: it.where(), Trace: append([]int{}, it.trace...), Params: it.params})
+	m := it.model()
+	it.R.addViolation(&Violation{Harness: it.R.Harness, Msg: "panic: " + e.Msg, Kind: "panic", Model: m, Where: e.Where, Trace: append([]int{}, it.trace...), Params: it.params})
 }
 
 func (r *Run) Bounded() bool { return r.bounded }
